@@ -178,7 +178,9 @@ func Alphabet(storedID string) []Input {
 	a = append(a, Pin(`"none"`, `,{"inputPermission":"ok"}`), Pin(`"required"`, `,{"inputPermission":"busy"}`))
 	// access
 	a = append(a, AccessRequest(0), AccessRequest(1), AccessRequest(2))
-	ids := []string{`"` + storedID + `"`, `"OTHER-ID"`, `""`, "-", "5", "null", `"` + strings.Repeat("L", 4096) + `"`, `"Dëmo-日本-😀"`, `"datagram"`, `["x"]`}
+	ids := []string{`"` + storedID + `"`, `"OTHER-ID"`, `""`, "-", "5", "null", `"` + strings.Repeat("L", 4096) + `"`, `"Dëmo-日本-😀"`, `"datagram"`, `["x"]`,
+		// near misses of the stored id: case, surrounding blanks, prefix, suffix
+		`"` + strings.ToLower(storedID) + `"`, `" ` + storedID + `"`, `"` + storedID + ` "`, `"` + storedID[:len(storedID)-1] + `"`, `"` + storedID + `X"`}
 	for _, id := range ids {
 		a = append(a, AccessMethods(id, ""))
 	}
